@@ -380,7 +380,7 @@ RIME_DEPRECATED Bool
 RimeCandidateListFromIndex(RimeSessionId session_id,
                            RimeCandidateListIterator* iterator,
                            int index) {
-  if (!iterator)
+  if (!iterator || index < 0)
     return False;
   an<Session> session(Service::instance().GetSession(session_id));
   if (!session)
